@@ -21,10 +21,10 @@ TEXT = {
          'RFC 8152 5.3 Enc_structure spec function, with the recipient-context and ciphertext-present preconditions being the documented panics.', '4 C05'),
  'C06': ('Every create/add/try_* helper is verified to hand the closure exactly the structure bytes computed from the builder state at call time and to store '
          'the closure result with all other fields unchanged (whole-struct frame); verify/decrypt helpers are verified to pass the stored signature/tag/ciphertext '
-         'first, the recomputed structure second and to return the closure result unchanged. Sequences of calls: composition of these total per-call contracts.', '4 C06'),
+         'first, the recomputed structure second and to return the closure result unchanged. The wire hop is a proved lemma family (x_wirehop.rs): whatever Value carries the data-model view the built message encodes to, every decoding of it has the same to-be-signed / MACed / additional-data bytes (any external AAD, embedded and detached) and the same stored signature / tag / ciphertext, for Sign1, each signer of Sign, Mac0, Mac, Encrypt0 and Encrypt; the same hop is run end to end by an always-on bounded probe. Sequences of calls: composition of these total per-call contracts.', '4 C06'),
  'C02': ('ProtectedHeader::from_cbor_bstr(_nested) is verified to store exactly the received byte string next to the parsed header (prot_res: original_data == Some(wire bytes), '
          'at every nesting level through the recursive result relations of Header/CoseSignature decoding); cbor_bstr is verified to return those bytes unchanged (and the empty string / the '
-         'encoded map for built headers); every carrier decoder/encoder and the three structure builders are verified to take the protected slot from these two functions; the expanded '
+         'encoded map for built headers); every carrier decoder/encoder and the three structure builders are verified to take the protected slot from these two functions (the typed wrappers around the structure builders have whole-structure contracts that belong to C03-C06; what C02 says about them is checked slot by slot by an always-on bounded probe); the expanded '
          'builder_set_protected! setters are verified to reset original_data to None. The parsed view depends only on the Value (data-model) handed over by ciborium.', '4 C02'),
  'C09': ('Each of the eight array decoders is verified against an iff acceptance predicate (exact arity, protected bstr empty or exactly one well-formed header map, header map, bstr/nil payload, bstr signature/tag, '
          'element-wise nested arrays) and a result relation (every field equals its slot, nil -> None, nested structures by the same relations). Nested arrays go through the assumed element-wise contract of '
